@@ -131,6 +131,27 @@ pub fn install_panic_hook() {
     }));
 }
 
+/// Run `f` on a freshly spawned thread and wait for it (a sequential hand-off: no scheduling decision is involved, but
+/// thread-local state of the code under test starts from scratch there). A panic over there is re-raised here with its
+/// recorded location.
+pub fn on_fresh_thread<T: Send>(f: impl FnOnce() -> T + Send) -> T {
+    let r = std::thread::scope(|s| {
+        s.spawn(|| match catch_unwind(AssertUnwindSafe(f)) {
+            Ok(v) => Ok(v),
+            Err(p) => Err((p, LAST_PANIC.with(|l| l.borrow_mut().take()))),
+        })
+        .join()
+    });
+    match r {
+        Ok(Ok(v)) => v,
+        Ok(Err((p, info))) => {
+            LAST_PANIC.with(|l| *l.borrow_mut() = info);
+            std::panic::resume_unwind(p)
+        }
+        Err(p) => std::panic::resume_unwind(p),
+    }
+}
+
 pub enum RunResult {
     Ok,
     Violation(Violation),
